@@ -202,6 +202,12 @@ def check(tier: str) -> Result:
                     b, k = linear(info[1].get("num_values", NONE))
                     if b is T_:
                         ok, why = k >= 1, f"num_values = time_limit{k:+d}, i.e. maximum = time_limit{k - 1:+d}: the LAST observation at the limit carries step_count = time_limit"
+                if ok is None and info is not None and info[0] in ("BoundedArray", "DiscreteArray"):
+                    from ..terms import contains as _contains
+                    bound = info[1].get("maximum", info[1].get("num_values"))
+                    if bound is not None and not _contains(bound, T_):
+                        ok, why = False, (f"bound {txt(bound, 3, 60)} does not depend on self.time_limit: a configured time_limit above it makes the emitted "
+                                          f"step_count leave the declared range")
                 res.add("C01.R3", site, fn, "step_count spec admits the value time_limit emitted on the last step", ok, why, nontrivial=ok is not None)
         # ---------------------------------------------------------------- R4 / R6 on emitted observation leaves
         for which, ts in (("reset", ea.reset_ts), ("step", ea.step_ts)):
@@ -295,6 +301,8 @@ def check(tier: str) -> Result:
                             n_dt += 1
                             res.add("C01.R7", s2, f2, f"Observation.{path} has the declared dtype category ({w})", c == w,
                                     f"value {txt(alt, 3, 90)} is {c}" + ("" if c == w else f": the spec declares {w}"))
+    from . import wiring
+    n_w = wiring.add_obligations(res, tree, "C01.R9", lambda ci: tree.is_subclass(ci, tree.ENV_BASE) and ci.module.name.startswith("jumanji.environments."))
     # ---------------------------------------------------------------- R8 shapes of observation leaves
     from . import shape_rules
     n_shape = shape_rules.obs_shape_obligations(res, tree, "C01.R8")
